@@ -1,4 +1,269 @@
-import EmsModel.Core.Clip
+import EmsModel.Lemmas.Clip
+/-!
+# C08 — clipping keeps every selected value and blanks everything else
+
+Stored values are `Option`: `none` is a missing value.  All statements hold for arrays of
+any rank, any dimension order, any mask.
+-/
 namespace Ems.C08
-theorem placeholder : True := trivial
+open Ems Ems.NArr
+
+variable {α : Type}
+
+/-! ### the crop -/
+
+/-- `trueBounds` is the tightest slice containing every marked position. -/
+theorem trueBounds_spec (l : List Bool) (lo hi : Nat) (h : trueBounds l = some (lo, hi)) :
+    l[lo]? = some true ∧ (∀ j, j < lo → l[j]? ≠ some true) ∧
+    lo < hi ∧ hi ≤ l.length ∧ l[hi - 1]? = some true ∧ (∀ j, hi ≤ j → l[j]? ≠ some true) := by
+  simp only [trueBounds] at h
+  cases h1 : l.idxOf? true with
+  | none => simp [h1] at h
+  | some a =>
+    simp only [h1, Option.some.injEq, Prod.mk.injEq] at h
+    obtain ⟨rfl, rfl⟩ := h
+    obtain ⟨ha1, hlo, ha2⟩ := List.idxOf?_eq_some_iff.mp h1
+    -- the reversed list also contains `true`
+    have hmem : true ∈ l.reverse := by
+      rw [List.mem_reverse]; rw [← hlo]; exact List.getElem_mem _
+    cases h2 : l.reverse.idxOf? true with
+    | none => rw [List.idxOf?_eq_none_iff] at h2; exact absurd hmem h2
+    | some r =>
+      obtain ⟨hr1, hrv, hr2⟩ := List.idxOf?_eq_some_iff.mp h2
+      simp only [List.length_reverse] at hr1
+      simp only [Option.getD_some]
+      have hrv' : l[l.length - 1 - r] = true := by
+        rw [List.getElem_reverse] at hrv; exact hrv
+      have hlast : l[l.length - r - 1]? = some true := by
+        have : l.length - r - 1 = l.length - 1 - r := by omega
+        rw [this, List.getElem?_eq_getElem (by omega), hrv']
+      refine ⟨by rw [List.getElem?_eq_getElem ha1, hlo], ?_, ?_, by omega, hlast, ?_⟩
+      · intro j hj hjt
+        have hjl : j < l.length := (List.getElem?_eq_some_iff.mp hjt).1
+        have := ha2 j hj
+        rw [List.getElem?_eq_getElem hjl] at hjt
+        simp at hjt
+        simp [hjt] at this
+      · -- lo ≤ last true position
+        by_cases hc : a < l.length - r
+        · exact hc
+        · exfalso
+          have hge : l.length - r - 1 < a := by omega
+          have := ha2 (l.length - r - 1) hge
+          have hx : l[l.length - r - 1] = true := by
+            have : l.length - r - 1 = l.length - 1 - r := by omega
+            simp only [this]; exact hrv'
+          simp [hx] at this
+      · intro j hj hjt
+        have hjl : j < l.length := (List.getElem?_eq_some_iff.mp hjt).1
+        -- position j corresponds to reversed position l.length - 1 - j < r
+        have hlt : l.length - 1 - j < r := by omega
+        have := hr2 (l.length - 1 - j) hlt
+        have hx : l.reverse[l.length - 1 - j]'(by simp; omega) = true := by
+          rw [List.getElem_reverse]
+          have : l.length - 1 - (l.length - 1 - j) = j := by omega
+          simp only [this]
+          rw [List.getElem?_eq_getElem hjl] at hjt
+          simpa using hjt
+        simp [hx] at this
+
+/-- **Cropping preserves values and order**: position `k` of a cropped dimension is position
+`k + lo` of the original; other dimensions are untouched. -/
+theorem crop_get [Inhabited α] (a : NArr α) (bounds : List (String × Nat × Nat)) (e : Env)
+    (v : String → Nat) (hwf : a.WF)
+    (hv : ∀ d ∈ a.dims, e.get d.1 = some (v d.1) ∧ v d.1 < cropSize bounds d.1 d.2)
+    (hin : ∀ d ∈ a.dims, cropShift bounds d.1 (v d.1) < d.2) :
+    (a.crop bounds).get? e = a.get? (e.map fun p => (p.1, cropShift bounds p.1 p.2)) := by
+  unfold crop
+  have hnames : ((a.dims.map fun d => (d.1, cropSize bounds d.1 d.2)).map (·.1)) = a.names := by
+    simp [names, List.map_map, Function.comp_def]
+  rw [get_ofFn_congr _ _ e v (by rw [hnames]; exact hwf.2)]
+  · -- the read on the right succeeds (in range), so `getD default` is the identity
+    obtain ⟨x, hx⟩ := get_isSome a (e.map fun p => (p.1, cropShift bounds p.1 p.2))
+      (fun d => cropShift bounds d (v d)) hwf (by
+        intro d hd
+        refine ⟨?_, hin d hd⟩
+        simp only [Env.get]
+        rw [lookup_map_values (cropShift bounds) e d.1]
+        have := (hv d hd).1
+        simp only [Env.get] at this
+        rw [this]; rfl)
+    rw [hx]; rfl
+  · intro d hd
+    obtain ⟨d', hd', rfl⟩ := List.mem_map.mp hd
+    exact hv d' hd'
+  · intro e1 e2 hagree
+    apply get_congr
+    intro d hd
+    simp only [Env.get]
+    rw [lookup_map_values (cropShift bounds) e1 d, lookup_map_values (cropShift bounds) e2 d]
+    have := hagree d (by rw [hnames]; exact hd)
+    simp only [Env.get] at this
+    rw [this]
+
+/-! ### masking -/
+
+/-- **`where(mask, fill)`**: a value survives exactly where the mask is true; elsewhere the
+variable holds a missing value. -/
+theorem where_get [Inhabited α] (a : NArr (Option α)) (mask : NArr Bool) (e : Env) (v : String → Nat)
+    (hwf : a.WF) (hv : ∀ d ∈ a.dims, e.get d.1 = some (v d.1) ∧ v d.1 < d.2)
+    (hsub : ∀ d ∈ mask.names, d ∈ a.names) (b : Bool) (hb : mask.get? e = some b) :
+    (a.whereMask mask).get? e = if b then a.get? e else some none := by
+  unfold whereMask
+  rw [get_ofFn_congr a.dims _ e v hwf.2 hv]
+  · obtain ⟨x, hx⟩ := get_isSome a e v hwf hv
+    cases b <;> simp [hb, hx]
+  · intro e1 e2 hagree
+    have h1 : mask.get? e1 = mask.get? e2 := get_congr mask e1 e2 (fun d hd => hagree d (hsub d hd))
+    have h2 : a.get? e1 = a.get? e2 := get_congr a e1 e2 hagree
+    simp only [h1, h2]
+
+/-- `find_fill_value` as a table: only a variable that is neither a masked array, nor carries
+`_FillValue` / `missing_value`, nor has a float-like dtype is unmaskable. -/
+theorem fill_decision_table (m f mv fl : Bool) :
+    fillDecision m f mv fl = .unmaskable ↔ (m = false ∧ f = false ∧ mv = false ∧ fl = false) := by
+  cases m <;> cases f <;> cases mv <;> cases fl <;> simp [fillDecision]
+
+/-- The governing mask is the first mask, in the mask dataset's order, whose dimensions are
+all dimensions of the variable. -/
+theorem governing_first (masks : List (String × NArr Bool)) (varNames : List String) (m : NArr Bool)
+    (h : governingMask masks varNames = some m) :
+    ∃ pre x post, masks = pre ++ x :: post ∧ x.2 = m ∧ (∀ d ∈ m.names, d ∈ varNames) ∧
+      ∀ y ∈ pre, ∃ d ∈ y.2.names, d ∉ varNames := by
+  simp only [governingMask, Option.map_eq_some_iff] at h
+  obtain ⟨x, hx, rfl⟩ := h
+  obtain ⟨hp, pre, post, hsplit, hpre⟩ := List.find?_eq_some_iff_append.mp hx
+  refine ⟨pre, x, post, hsplit, rfl, ?_, ?_⟩
+  · simpa [List.all_eq_true, List.contains_iff_mem] using hp
+  · intro y hy
+    have := hpre y hy
+    simpa [List.all_eq_true, List.contains_iff_mem] using this
+
+/-- A mask that marks nothing is refused. -/
+theorem empty_mask_refused [Inhabited α] (name : String) (m : NArr Bool) (rest : List (String × NArr Bool))
+    (fill : FillKind) (a : NArr (Option α)) (h : m.data.any id = false) :
+    clipVar ((name, m) :: rest) fill a = none := by
+  have hb : m.maskBounds = none := by simp [maskBounds, h]
+  have : allBounds ((name, m) :: rest) = none := by
+    simp only [allBounds, List.foldl_cons, hb]
+    -- once `none`, the fold stays `none`
+    have stay : ∀ (l : List (String × NArr Bool)),
+        l.foldl (fun acc (m : String × NArr Bool) =>
+          match acc, m.2.maskBounds with
+          | some bs, some nb => some (nb ++ bs.filter fun b => !(nb.map (·.1)).contains b.1)
+          | _, _ => none) (none : Option (List (String × Nat × Nat))) = none := by
+      intro l
+      induction l with
+      | nil => rfl
+      | cons x xs ih => simpa using ih
+    exact stay rest
+  simp [clipVar, this]
+
+/-- **The grid clip, pointwise.**  Inside the crop, a maskable variable holds its original
+value where the governing mask is true and a missing value elsewhere … -/
+theorem grid_clip_spec [Inhabited α] (masks : List (String × NArr Bool)) (a : NArr (Option α))
+    (bounds : List (String × Nat × Nat)) (m : NArr Bool)
+    (hb : allBounds masks = some bounds) (hg : governingMask masks a.names = some m) :
+    clipVar masks .maskable a = some ((a.crop bounds).whereMask (m.crop bounds)) := by
+  simp [clipVar, hb, hg]
+
+/-- … while a variable that cannot represent a missing value is cropped but never altered,
+and so is a variable that no mask governs (no spatial dimensions). -/
+theorem unmaskable_never_altered [Inhabited α] (masks : List (String × NArr Bool)) (a : NArr (Option α))
+    (bounds : List (String × Nat × Nat)) (hb : allBounds masks = some bounds) :
+    clipVar masks .unmaskable a = some (a.crop bounds) ∧
+    (governingMask masks a.names = none → ∀ fill, clipVar masks fill a = some (a.crop bounds)) := by
+  constructor
+  · simp [clipVar, hb]
+  · intro hg fill
+    cases fill <;> simp [clipVar, hb, hg]
+
+/-- No data from outside the region survives: a value present in the masked output belongs
+to a cell the mask marks. -/
+theorem nothing_outside_survives [Inhabited α] (a : NArr (Option α)) (mask : NArr Bool) (e : Env)
+    (v : String → Nat) (hwf : a.WF) (hv : ∀ d ∈ a.dims, e.get d.1 = some (v d.1) ∧ v d.1 < d.2)
+    (hsub : ∀ d ∈ mask.names, d ∈ a.names) (b : Bool) (hb : mask.get? e = some b)
+    (x : α) (hx : (a.whereMask mask).get? e = some (some x)) : b = true := by
+  rw [where_get a mask e v hwf hv hsub b hb] at hx
+  cases b with
+  | true => rfl
+  | false => simp at hx
+
+/-! ### meshes: boolean row selection -/
+
+theorem keptRows_spec (keep : List Bool) :
+    (∀ i, i ∈ keptRows keep ↔ keep[i]? = some true) ∧ (keptRows keep).Pairwise (· < ·) := by
+  constructor
+  · intro i
+    simp only [keptRows, List.mem_filter, List.mem_range]
+    constructor
+    · rintro ⟨hlt, h⟩
+      rw [List.getD_eq_getElem?_getD, List.getElem?_eq_getElem hlt] at h
+      rw [List.getElem?_eq_getElem hlt]; simpa using h
+    · intro h
+      have hlt := (List.getElem?_eq_some_iff.mp h).1
+      exact ⟨hlt, by simp [List.getD_eq_getElem?_getD, h]⟩
+  · exact List.Pairwise.filter _ List.pairwise_lt_range
+
+/-- **Row selection keeps exactly the kept rows, in original order**: row `k` of the output
+along the mesh dimension is the `k`-th kept row of the input; all other dimensions untouched. -/
+theorem selectRows_get [Inhabited α] (a : NArr α) (dim : String) (keep : List Bool) (e : Env)
+    (v : String → Nat) (hwf : a.WF)
+    (hv : ∀ d ∈ a.dims, e.get d.1 = some (v d.1) ∧
+      v d.1 < (if d.1 == dim then (keptRows keep).length else d.2))
+    (hin : ∀ d ∈ a.dims, (if d.1 == dim then (keptRows keep).getD (v d.1) 0 else v d.1) < d.2) :
+    (a.selectRows dim keep).get? e =
+      a.get? (e.map fun p => (p.1, if p.1 == dim then (keptRows keep).getD p.2 0 else p.2)) := by
+  unfold selectRows
+  have hnames : ((a.dims.map fun x => (x.1, if x.1 == dim then (keptRows keep).length else x.2)).map (·.1)) = a.names := by
+    simp [names, List.map_map, Function.comp_def]
+  let g : String → Nat → Nat := fun d x => if d == dim then (keptRows keep).getD x 0 else x
+  have hmap : ∀ e' : Env, (e'.map fun p => (p.1, if p.1 == dim then (keptRows keep).getD p.2 0 else p.2))
+      = e'.map fun p => (p.1, g p.1 p.2) := fun _ => rfl
+  rw [get_ofFn_congr _ _ e v (by rw [hnames]; exact hwf.2)]
+  · obtain ⟨x, hx⟩ := get_isSome a (e.map fun p => (p.1, g p.1 p.2)) (fun d => g d (v d)) hwf (by
+        intro d hd
+        refine ⟨?_, hin d hd⟩
+        simp only [Env.get]
+        rw [lookup_map_values g e d.1]
+        have := (hv d hd).1
+        simp only [Env.get] at this
+        rw [this]; rfl)
+    rw [hmap, hx]; rfl
+  · intro d hd
+    obtain ⟨d', hd', rfl⟩ := List.mem_map.mp hd
+    exact hv d' hd'
+  · intro e1 e2 hagree
+    rw [hmap, hmap]
+    apply get_congr
+    intro d hd
+    simp only [Env.get]
+    rw [lookup_map_values g e1 d, lookup_map_values g e2 d]
+    have := hagree d (by rw [hnames]; exact hd)
+    simp only [Env.get] at this
+    rw [this]
+
+/-- a variable without the mesh dimension passes through unchanged -/
+theorem meshRows_passthrough [Inhabited α] (dimMasks : List (String × List Bool)) (a : NArr α)
+    (h : ∀ dm ∈ dimMasks, dm.1 ∉ a.names) : meshRows dimMasks a = a := by
+  unfold meshRows
+  induction dimMasks with
+  | nil => rfl
+  | cons dm rest ih =>
+    have hdm : a.names.contains dm.1 = false := by
+      cases hc : a.names.contains dm.1 with
+      | false => rfl
+      | true => exact absurd (List.contains_iff_mem.mp hc) (h dm (by simp))
+    simp only [List.foldl_cons, hdm, Bool.false_eq_true, if_false]
+    exact ih (fun d hd => h d (by simp [hd]))
+
+/-! ### non-vacuity -/
+def exMask : NArr Bool := { dims := [("y", 3), ("x", 3)], data := [false, false, false, false, true, true, false, false, true] }
+def exVar : NArr (Option Int) := { dims := [("y", 3), ("x", 3)], data := [some 0, some 1, some 2, some 3, some 4, some 5, some 6, some 7, some 8] }
+example : trueBounds [false, true, true, false] = some (1, 3) := by decide
+example : allBounds [("cell_mask", exMask)] = some [("y", 1, 3), ("x", 1, 3)] := by decide +kernel
+example : (clipVar [("cell_mask", exMask)] .maskable exVar).map (·.data) = some [some 4, some 5, none, some 8] := by decide +kernel
+example : (clipVar [("cell_mask", exMask)] .unmaskable exVar).map (·.data) = some [some 4, some 5, some 7, some 8] := by decide +kernel
+example : keptRows [false, true, true, false] = [1, 2] := by decide
+
 end Ems.C08
